@@ -14,7 +14,7 @@ use std::rc::Rc;
 pub const INFO: PropInfo = PropInfo {
     quick_runs: 40_000,
     thorough_runs: 1_500_000,
-    rule: "each run = 1..3 persistent connections carrying 2..12 generated requests each (one segment per request, next request after the previous response), plus the same requests alone on fresh connections in the same world; \
+    rule: "each run = 1..3 persistent connections carrying 2..12 generated requests each — in one run of twelve 40..300 on the first connection — (one segment per request; the next request after the previous response or, on a third of the connections, sometimes right behind its predecessor; on a quarter of the connections the server's reads are short), plus the same requests alone on fresh connections in the same world; \
            non-trivial = at least two responses were received on one persistent connection; distinct = distinct hash of the full request sequences",
     state_measure: "(position class of Connection: close, presence of malformed request, number of connections) combinations",
     assumptions: &[
@@ -23,7 +23,7 @@ pub const INFO: PropInfo = PropInfo {
         "a malformed request in the middle is smaller than the 1 KiB read buffer, so that one read consumes it",
         "request heads stay below 1 KiB",
     ],
-    expected_probes: &["c05.close_honoured", "c05.request_after_close_unanswered", "c05.malformed_in_middle", "c05.ctx_set_then_later_request", "c05.param_then_no_param", "c05.body_over_buffer", "c05.chaos_connection_alongside", "c05.short_reads_on_persistent", "c05.request_sent_before_previous_response"],
+    expected_probes: &["c05.close_honoured", "c05.request_after_close_unanswered", "c05.malformed_in_middle", "c05.ctx_set_then_later_request", "c05.param_then_no_param", "c05.body_over_buffer", "c05.chaos_connection_alongside", "c05.short_reads_on_persistent", "c05.request_sent_before_previous_response", "c05.connection_with_64_or_more_requests", "c05.connection_with_256_or_more_requests"],
 };
 
 #[derive(Clone, Debug, Serialize, Deserialize)]
@@ -75,8 +75,15 @@ pub fn generate(_cfg: &RunCfg, _out: &mut Outcome) -> Scenario {
     let n_conns = 1 + t::weighted(&[6, 3, 1]);
     let mut conns = Vec::new();
     for c in 0..n_conns {
-        let reqs = sess::gen_sequence(c, &SeqOpts { min: 2, max: if c == 0 { 12 } else { 5 }, allow_malformed: true, allow_close: true, max_body: 3000, allow_delay: true });
-        let think_ms = reqs.iter().map(|_| t::pick(&[0u64, 0, 1, 30, 2000])).collect();
+        // long histories: what accumulates per connection (slot tables, counters, buffers that only grow) shows late
+        let long = c == 0 && t::chance(1, 12);
+        let reqs = if long {
+            let n = t::pick(&[40usize, 64, 65, 100, 128, 129, 200, 256, 257, 300]);
+            sess::gen_sequence(c, &SeqOpts { min: n, max: n, allow_malformed: true, allow_close: false, max_body: 300, allow_delay: false })
+        } else {
+            sess::gen_sequence(c, &SeqOpts { min: 2, max: if c == 0 { 12 } else { 5 }, allow_malformed: true, allow_close: true, max_body: 3000, allow_delay: true })
+        };
+        let think_ms = reqs.iter().map(|_| if long { 0 } else { t::pick(&[0u64, 0, 1, 30, 2000]) }).collect();
         let eager = t::chance(1, 3);
         let nowait = reqs.iter().map(|r| eager && r.malformed.is_none() && !r.wants_close() && t::chance(1, 2)).collect();
         conns.push(ConnPlan { reqs, think_ms, send_after_close: t::chance(1, 2), short_reads: t::chance(1, 4), nowait });
@@ -131,6 +138,12 @@ fn execute(sc: &Scenario, out: &mut Outcome) {
 
     if sc.conns.iter().any(|c| c.nowait.iter().any(|x| *x)) {
         out.probe("c05.request_sent_before_previous_response");
+    }
+    if sc.conns.iter().any(|c| c.reqs.len() >= 64) {
+        out.probe("c05.connection_with_64_or_more_requests");
+    }
+    if sc.conns.iter().any(|c| c.reqs.len() >= 256) {
+        out.probe("c05.connection_with_256_or_more_requests");
     }
     if sc.conns.iter().any(|c| c.short_reads) {
         out.probe("c05.short_reads_on_persistent");
